@@ -98,6 +98,8 @@ def defining_statements(fn, names, provided=()):
         if isinstance(st, (ast.FunctionDef, ast.AsyncFunctionDef, ast.ClassDef)):
             continue
         stores = {n.id for n in ast.walk(st) if isinstance(n, ast.Name) and isinstance(n.ctx, ast.Store)}
+        if stores & set(provided):
+            continue        # (re)defines an input: the caller supplies that value
         if stores & needed:
             picked.append(st)
             needed |= {n.id for n in ast.walk(st) if isinstance(n, ast.Name) and isinstance(n.ctx, ast.Load)} - set(provided)
